@@ -669,6 +669,16 @@ def run(prog: Program, res: Result) -> None:
                 res.fail("C17.R5", file=mrel, line=uses_nl[0].lineno, qualname=fq, construct=f"{fq} counts '\\n' while its siblings use splitlines()", message=f"{fq} computes positions from '\\n' only, the other position functions use str.splitlines(): line numbers from the two disagree for sources with other line boundaries", what=what)
             else:
                 res.ok("C17.R5", site, what, "splitlines() only")
+            # offsets accumulated over the lines need the terminators (one or two characters long): keepends=True, nothing added per line
+            accum = [a for a in ast.walk(fn_.node) if isinstance(a, ast.AugAssign) and isinstance(a.op, ast.Add) and any(isinstance(c, ast.Call) and isinstance(c.func, ast.Name) and c.func.id == "len" for c in ast.walk(a.value))]
+            if uses_split and accum:
+                what2 = f"{fq}: character offsets summed over splitlines(keepends=True) pieces only"
+                keep = all(any(k.arg == "keepends" and isinstance(k.value, ast.Constant) and k.value.value is True for k in c.keywords) or (c.args and isinstance(c.args[0], ast.Constant) and c.args[0].value is True) for c in uses_split)
+                plain = all(isinstance(a.value, ast.Call) for a in accum)
+                if keep and plain:
+                    res.ok("C17.R5", site, what2, "keepends=True and `+= len(line)`")
+                else:
+                    res.fail("C17.R5", file=mrel, line=accum[0].lineno, qualname=fq, construct=f"{fq} sums line lengths {'without keepends=True' if not keep else 'plus a constant'}", message=f"{fq} turns a character offset into line/column by summing the lengths of str.splitlines() pieces {'that have lost their terminators' if not keep else 'plus a fixed amount per line'}: a terminator is one or two characters ('\\r\\n'), so for CRLF sources every preceding line shifts the reported column and the position no longer refers to the token", what=what2)
     res.floor("C17.R5", "line/column functions", n_line_fns, 3)
 
     # ---------------------------------------------------------------- R4: who may build tokens
@@ -1068,17 +1078,42 @@ def check_path_tokens(prog: Program, res: Result, rule: str) -> None:
     def _stops(nd: ast.AST) -> bool:
         return isinstance(nd, ast.Assign) and any(isinstance(t, ast.Attribute) and t.attr == "stop" and norm(t.value) == "self.path_stack[-1]" for t in nd.targets)
 
-    def ptr(n, st, label):  # noqa: ANN001, ANN202
-        if n.node is None or n.kind != "stmt" or label == "exc":
-            return st
-        cur = st
-        if _gains(n.node):
-            cur = "stale"
-        if _stops(n.node):
-            cur = "fresh"
-        return cur
+    def _moves(nd: ast.AST) -> int:
+        """Net number of characters consumed by the statement/test (3 = 'several / unknown')."""
+        k = 0
+        for x in ast.walk(nd):
+            if isinstance(x, ast.AugAssign) and norm(x.target) == "self.pos":
+                return 3
+            if isinstance(x, ast.Call) and isinstance(x.func, ast.Attribute) and isinstance(x.func.value, ast.Name) and x.func.value.id == "self":
+                if x.func.attr == "next":
+                    k += 1
+                elif x.func.attr == "backup":
+                    k -= 1
+                elif x.func.attr.startswith("accept"):
+                    return 3
+        return k
 
-    PIN = forward(acfg, "fresh", ptr, lambda a, b: "stale" if "stale" in (a, b) else "fresh")
+    def ptr(n, st, label):  # noqa: ANN001, ANN202
+        """State = (fresh|stale, characters consumed since the last store of stop: 0..3)."""
+        if n.node is None or n.kind not in ("stmt", "test") or label == "exc":
+            return st
+        flag, cnt = st
+        mv = _moves(n.node)
+        if mv >= 3 or cnt >= 3:
+            cnt = 3 if (mv != 0 or cnt >= 3) else cnt
+        else:
+            cnt = max(0, min(3, cnt + mv))
+        if n.kind == "stmt":
+            if _gains(n.node):
+                flag = "stale"
+            if _stops(n.node):
+                flag, cnt = "fresh", 0
+        return (flag, cnt)
+
+    def _pjoin(a, b):  # noqa: ANN001, ANN202
+        return ("stale" if "stale" in (a[0], b[0]) else "fresh", max(a[1], b[1]))
+
+    PIN = forward(acfg, ("fresh", 0), ptr, _pjoin)
     rets = [n for n in acfg.nodes if n.kind == "stmt" and isinstance(n.node, ast.Return)] + [src for src, _l in acfg.exit.pred if not (src.kind == "stmt" and isinstance(src.node, ast.Return))]
     res.floor(rule, "exits of accept_path", len(rets), 2)
     depth_vars = {t.id for a in ast.walk(ap.node) if isinstance(a, ast.Assign) and norm(a.value) == "len(self.path_stack)" for t in a.targets if isinstance(t, ast.Name)}
@@ -1087,8 +1122,11 @@ def check_path_tokens(prog: Program, res: Result, rule: str) -> None:
             continue
         site = f"{rel}:{r.line} Lexer.accept_path"
         what = f"exit at line {r.line}: the path token's stop is current"
-        if ptr(r, PIN[r.id], "next") == "fresh":
-            res.ok(rule, site, what, "`self.path_stack[-1].stop = …` follows every segment append on all paths")
+        st_end = ptr(r, PIN[r.id], "next")
+        if st_end[0] == "fresh" and st_end[1] == 0:
+            res.ok(rule, site, what, "`self.path_stack[-1].stop = …` follows every segment append on all paths, and nothing is consumed after the last store (net of backup())")
+        elif st_end[0] == "fresh":
+            res.fail(rule, file=rel, line=r.line, qualname="Lexer.accept_path", construct="return after consuming characters that the stored stop does not cover", message="accept_path can return after consuming part of the path (e.g. the closing bracket of an index) later than the last `self.path_stack[-1].stop = …`: the token's span ends before the text it was scanned from", what=what)
         else:
             res.fail(rule, file=rel, line=r.line, qualname="Lexer.accept_path", construct=f"return at a point where a segment was appended without updating stop", message="accept_path can return after appending a segment (or pushing a nested path) without bringing `self.path_stack[-1].stop` up to date: the token keeps its placeholder end (-1) or an end before its last segment, so its span is not the text it was scanned from", what=what)
         what_b = f"exit at line {r.line}: guarded by a bracket-balance test"
